@@ -104,6 +104,20 @@ def shim_thirdparty():
     except Exception:  # pragma: no cover - reported by the checks that need it
         pass
     logging.getLogger("yowsup.axolotl.manager").setLevel(logging.WARNING)
+    # python-axolotl 0.2.2: AESCipher.encrypt skips PKCS#7 padding for block-aligned input although decrypt always
+    # unpads, so 1 message in 16 cannot be decrypted by any peer (third-party defect, outside the repository).
+    if not os.environ.get("VERIF_NO_AXOLOTL_PAD_SHIM"):
+        try:
+            import axolotl.sessioncipher as sc
+            from cryptography.hazmat.primitives import padding as _padding
+
+            def _encrypt(self, raw):
+                padder = _padding.PKCS7(128).padder()
+                enc = self.cipher.encryptor()
+                return enc.update(padder.update(bytes(raw)) + padder.finalize()) + enc.finalize()
+            sc.AESCipher.encrypt = _encrypt
+        except Exception:  # pragma: no cover
+            pass
 
 
 def scratch(name):
